@@ -26,7 +26,7 @@ R1_LIMIT = 0.70
 PLANAR_BOUND = 2 * R1_LIMIT
 BOUNDS = {"(L)": "flip state (4) x parent digit (4) x child digit (4) symbolic, 6 orientations, parent anchor offset symbolic in [0, 2^29]^2",
           "(S)": "every level h in 2..28 (quick: 2,3,8,16,27,28), 6 orientations, all 4^h indices",
-          "(V)": "levels h in {2,3,4} (thorough: 2..6), all indices, 6 orientations",
+          "(V)": "levels h in {2,3,4} (thorough: 2..5; the h=6 enumeration came back unknown), all indices, 6 orientations",
           "certified planar bound": "centre(descendant) within %.2f * sqrt(planar area(ancestor)) at any depth" % PLANAR_BOUND}
 OUTSIDE = ["the spherical conclusion (<= 1.5 sqrt(area) great-circle) additionally needs the projection's length distortion <= 1.5/%.2f = %.3f: not decided"
            % (PLANAR_BOUND, 1.5 / PLANAR_BOUND),
@@ -187,7 +187,7 @@ def jobs(tier, seed):
         js.append(Job("L[%s]" % o, "h_local", {"o": o}, {"query_timeout_ms": 300000, "max_paths": 200}, weight=10))
         for h in ([2, 3, 8, 16, 27, 28] if tier == "quick" else range(2, 29)):
             js.append(Job("S[h=%d,%s]" % (h, o), "h_reversal", {"h": h, "o": o}, {}, weight=1))
-        for h in ([2, 3, 4] if tier == "quick" else [2, 3, 4, 5, 6]):
+        for h in ([2, 3, 4] if tier == "quick" else [2, 3, 4, 5]):
             for j in range(0, h + 1):
                 js.append(Job("V[h=%d,%s,j=%d]" % (h, o, j), "h_validate", {"h": h, "o": o, "j": j},
                               {"query_timeout_ms": 300000}, weight=2 ** h / 4))
